@@ -1,12 +1,13 @@
 (* C06 -- FEN output parses back.  PARTIAL.
    Proved on the model: the decimal printing of both clocks round-trips through the integer parser for every value
    0..2^31-1; the two characters printed for an en-passant square parse back to that square in both arithmetic modes.
-   The board field round-trips for every well-formed position in both modes (FenBoard.v).
+   The board field round-trips for every well-formed position in both modes (FenBoard.v), and for every valid position
+   WITHOUT castling rights the whole printed string parses back to the position itself, key included (FenRound.v).
    The castling letters (incl. the Shredder letter for an inner rook, repaired in eb1b15a) and the
    whole-string round trip are decided by the correspondence run on positions reached by play and on canonical
    X-FEN strings written by an independent printer. *)
 From Coq Require Import NArith ZArith List Bool.
-From Rawr Require Import Consts Bits Magic Position MoveGen MakeMove Fen NotationFacts HashFacts KeyAbs FenBoard.
+From Rawr Require Import Consts Bits Magic Position MoveGen MakeMove Fen NotationFacts HashFacts KeyAbs KeyMove MakeStages FenBoard FenRound.
 Import ListNotations.
 Local Open Scope Z_scope.
 
@@ -25,6 +26,32 @@ Theorem C06_board_field_roundtrip : forall np mode, WF np -> BB8 np -> turn np =
        = Some (mkBA (c_us np) (c_them np) [pawns np; knights np; bishops np; rooks np; queens np; kings np] 64).
 Proof. exact board_field_roundtrip. Qed.
 
+(* the first sentence of the property for positions without castling rights: the printed FEN parses back to the very same
+   position record -- placement, side to move, en-passant square, both clocks and the key -- in both arithmetic modes.
+   `RT p`: well-formed boards below 2^64, no castling right (files at their defaults), `validate p = None`, stored key =
+   recomputed key, clocks within i32, en-passant square on the board. *)
+Theorem C06_fen_roundtrip_without_castling_rights : forall mode p, RT p ->
+  exists s, get_fen p = Some s /\ set_fen mode (is_frc p) s = Some p.
+Proof. exact fen_roundtrip. Qed.
+
+(* non-vacuity: the start position with the castling rights taken away satisfies RT *)
+Definition norights : Position :=
+  let q := set_clocks_ep_rights startpos 0 1 None false false false false in set_hash q (calculate_hash q).
+Example C06_rt_example : RT norights.
+Proof.
+  constructor.
+  - apply WF_sound. vm_compute. reflexivity.
+  - apply bb8_sound. vm_compute. reflexivity.
+  - repeat split; reflexivity.
+  - repeat split; reflexivity.
+  - vm_compute. reflexivity.
+  - vm_compute. reflexivity.
+  - vm_compute. split; discriminate.
+  - vm_compute. split; discriminate.
+  - intros e H. discriminate H.
+Qed.
+
 Print Assumptions C06_clock_roundtrip.
 Print Assumptions C06_ep_field_roundtrip.
 Print Assumptions C06_board_field_roundtrip.
+Print Assumptions C06_fen_roundtrip_without_castling_rights.
